@@ -1,4 +1,5 @@
 import Lemmas.NotifierDelivery
+import Lemmas.NotifierConc
 /-! # C17 — notifications reach exactly the registered targets, once, in priority order
 
 Property theorems only.  The executable model is `Model/Notifier.lean` (`Nt.step`, run by `drv_c17` against the Go
@@ -10,8 +11,14 @@ and recovery handlers observed.  `Nt.specRun ops i : Name → target → Option 
 `registered` of notifier `i`, computed from the history alone by the four obvious rules (`Nt.specStep`: Register sets,
 Unregister clears the target, RegisterFromNotifier overlays the other notifier's relation, Reset clears everything).
 Names are byte strings; `normalize` = the non-empty dot-separated segments; `pre <+: n` on segment lists is
-"`pre` is `n` or a dot-ancestor of `n`".  All theorems are sequential (one operation at a time): the clause
-"concurrent use is free of data races" is outside the model and is only exercised by the `-race` stress run. -/
+"`pre` is `n` or a dot-ancestor of `n`".  The theorems of the first part are sequential (one operation at a time).
+
+The second part (`concurrent_…`, `notify_delivers_snapshot`, `delivery_touches_no_shared_state`, `unlocked_…`) carries
+the logical half of the clause "concurrent use is free of data races" on the model `Model/NotifierConc.lean`: several
+goroutines, one notifier and its mutex, every method a sequence of lock brackets (`NtC.ROp`, micro-step semantics
+`NtC.sys`, one micro-step per loop iteration) followed by an unlocked phase on goroutine-local data (`NtC.Local`: sort,
+then one callback per step), ANY scheduler (`NtC.cexec`).  The other half — that the Go code really touches the maps
+only inside the brackets and never writes a snapshot after handing it out — is what the `-race` stress run watches. -/
 namespace C17
 open Nt
 
@@ -207,5 +214,163 @@ theorem normalize_join_roundtrip (raw : List Nat) :
 example : ((run nobody [.register 0 1 5 [[97]]]).1 0).enabled = true ∧ ((run nobody [.register 0 1 5 [[97]]]).1 0).level = 0 ∧
     matched 0 0 [.startBatch 0, .notify 0 [97], .endBatch 0, .register 0 3 1 [[98]]] = true := by
   decide
+
+/-! ## concurrent use (model `Model/NotifierConc.lean`, generic mutex machine `Model/Mutex.lean`) -/
+section concurrent
+open NtC Mutex
+
+/-- **the registry is linearizable**: under EVERY schedule of any number of goroutines calling any methods, whenever the
+    mutex is free the registry state, and the result every finished bracket handed to its goroutine, are exactly those
+    of executing the brackets ONE AT A TIME with the sequential model (`rrun` = `Nt.register`, `Nt.unregister`,
+    `Nt.startBatch`, … of the first part) in the order in which they acquired the mutex; every goroutine got the results
+    of its own brackets, and the order respects every goroutine's program order.  (Micro-steps of different brackets
+    never interleave: `concurrent_mutual_exclusion`.) -/
+theorem concurrent_registry_linearizable (pan : Nat → Bool) (nid : Nat) (s₀ : NSt) (progs : Nat → List ROp)
+    (sch : List Nat) (C : Conf) (he : cexec pan nid true (cinit s₀ progs) sch = some C) (hfree : C.m.holder = none) :
+    seqExec rrun s₀ C.m.acq = (C.m.log, C.m.shared) ∧
+    (∀ t, (C.m.threads t).res = resOf t C.m.log) ∧
+    (∀ t, opsOf t C.m.acq ++ (C.m.threads t).todo = progs t) := by
+  obtain ⟨sch', _, hm⟩ := cexec_proj pan nid true sch _ C he
+  obtain ⟨h1, _, h3, h4⟩ := linearizable_fun sys rrun (fun _ => True) (fun op s _ => runs_op op s) (fun _ _ _ => trivial)
+    s₀ trivial progs sch' C.m hm hfree
+  exact ⟨h1, h3, h4⟩
+
+/-- at most one goroutine is inside a lock bracket, under every schedule -/
+theorem concurrent_mutual_exclusion (pan : Nat → Bool) (nid : Nat) (s₀ : NSt) (progs : Nat → List ROp)
+    (sch : List Nat) (C : Conf) (he : cexec pan nid true (cinit s₀ progs) sch = some C) (t t' : Nat)
+    (h : ((C.m.threads t).cur).isSome = true) (h' : ((C.m.threads t').cur).isSome = true) : t = t' := by
+  obtain ⟨sch', _, hm⟩ := cexec_proj pan nid true sch _ C he
+  exact mutual_exclusion sys s₀ progs sch' C.m hm t t' h h'
+
+/-- no deadlock in the model: under every schedule some goroutine can take a step until all programs are finished and
+    all callbacks made (callbacks do not call back into the notifier here; re-entrant targets are exercised by the
+    deterministic stream of the check) -/
+theorem concurrent_progress (pan : Nat → Bool) (nid : Nat) (s₀ : NSt) (progs : Nat → List ROp)
+    (sch : List Nat) (C : Conf) (he : cexec pan nid true (cinit s₀ progs) sch = some C) :
+    (∃ t, (cstep pan nid true C t).isSome = true) ∨ (AllDone C.m ∧ ∀ t, (C.loc t).pending = []) := by
+  obtain ⟨sch', _, hm⟩ := cexec_proj pan nid true sch _ C he
+  by_cases hp : ∃ t, (C.loc t).pending ≠ []
+  · obtain ⟨t, ht⟩ := hp
+    left; refine ⟨t, ?_⟩
+    cases hpt : (C.loc t).pending with
+    | nil => exact absurd hpt ht
+    | cons e rest => rw [callback_step_local pan nid true C t e rest hpt]; rfl
+  · have hall : ∀ t, (C.loc t).pending = [] := by
+      intro t; apply Classical.byContradiction; intro h; exact hp ⟨t, h⟩
+    rcases progress sys s₀ progs sch' C.m hm with ⟨t, ht⟩ | hd
+    · left; refine ⟨t, ?_⟩
+      unfold cstep; rw [hall t]; simp only
+      cases hs : Mutex.step sys true C.m t with
+      | none => rw [hs] at ht; cases ht
+      | some m' => simp only; cases returning C.m t <;> rfl
+    · exact Or.inr ⟨hd, hall⟩
+
+/-- **every goroutine's callbacks are those of the one-at-a-time execution**: under every schedule, the sequence of
+    `HandleNotification` / `BatchMode` calls (and recovery reports) a goroutine has made, followed by those its current
+    snapshot still holds, is exactly its callback sequence in the execution that runs the brackets one at a time in
+    acquisition order and lets every goroutine deliver each snapshot completely before anything else happens
+    (`NtC.seqLocal`).  In particular nothing another goroutine does while a snapshot is being delivered changes it. -/
+theorem concurrent_callbacks_sequential (pan : Nat → Bool) (nid : Nat) (s₀ : NSt) (progs : Nat → List ROp)
+    (sch : List Nat) (C : Conf) (he : cexec pan nid true (cinit s₀ progs) sch = some C) (hfree : C.m.holder = none)
+    (t : Nat) : (C.loc t).all = (seqLocal pan nid (fun _ => {}) s₀ C.m.acq t).all := by
+  have hl := (localInv_exec pan nid true sch _ C (localInv_init pan nid s₀ progs) he t).2
+  obtain ⟨h1, _, _⟩ := concurrent_registry_linearizable pan nid s₀ progs sch C he hfree
+  have hlog : C.m.log = (seqExec rrun s₀ C.m.acq).1 := by rw [h1]
+  rw [hl, hlog, logLocal_seqExec]
+
+/-- **a concurrent `Notify` delivers the snapshot of its linearization point**.  Take any schedule, any goroutine `t` and
+    any of its `Notify(raw)` calls whose two brackets are in the acquisition order at `pre₁` (the `Enabled()` check) and
+    after `mid` (the collection; `mid` = brackets of OTHER goroutines that slipped in between).  Let `sL` be the registry
+    state of the one-at-a-time execution at the collection — or at the check, if the check saw the notifier disabled.
+    Then (1) `sL` satisfies the registry invariant, so every sequential theorem of the first part applies to it;
+    (2) the callbacks of `t` are `before ++ deliverAll … (Nt.notify sL raw) ++ after`: for this call it invokes exactly
+    the delivery list the SEQUENTIAL model computes at `sL`, whatever the other goroutines do before, between and after;
+    (3)–(5) spelled out: that list reaches exactly the targets registered at `sL` for the name or a dot-ancestor (none
+    if disabled), each once, in non-increasing priority. -/
+theorem notify_delivers_snapshot (pan : Nat → Bool) (nid : Nat) (s₀ : NSt) (h0 : Inv s₀) (progs : Nat → List ROp)
+    (hok : ∀ t op, op ∈ progs t → OpOk op)
+    (sch : List Nat) (C : Conf) (he : cexec pan nid true (cinit s₀ progs) sch = some C) (hfree : C.m.holder = none)
+    (pre₁ mid post : List (Nat × ROp)) (t : Nat) (raw : List Nat)
+    (hacq : C.m.acq = pre₁ ++ (t, .enabledQ) :: (mid ++ (t, .collect raw) :: post)) (hmid : ∀ x ∈ mid, x.1 ≠ t) :
+    let s₁ := (seqExec rrun s₀ pre₁).2
+    let s₂ := (seqExec rrun s₁ mid).2
+    let sL := if s₁.enabled then s₂ else s₁
+    Inv sL ∧
+    (∃ before after, (C.loc t).all = before ++ deliverAll pan nid (normalize raw) (notify sL raw) ++ after) ∧
+    (∀ x, x ∈ targetsOf (notify sL raw) ↔
+      sL.enabled = true ∧ ∃ pre, pre ≠ [] ∧ pre <+: normalize raw ∧ (lookup sL.prod pre x).isSome) ∧
+    (targetsOf (notify sL raw)).Nodup ∧
+    (notify sL raw).Pairwise (fun a b => a.1 ≥ b.1) := by
+  intro s₁ s₂ sL
+  obtain ⟨_, _, hord⟩ := concurrent_registry_linearizable pan nid s₀ progs sch C he hfree
+  have hopok : ∀ x ∈ C.m.acq, OpOk x.2 := by
+    intro x hx
+    obtain ⟨u, op⟩ := x
+    apply hok u op
+    rw [← hord u]
+    exact List.mem_append_left _ (mem_opsOf u op _ hx)
+  have hi1 : Inv s₁ := inv_seqExec pre₁ s₀ h0 (fun x hx => hopok x (by rw [hacq]; simp [hx]))
+  have hi2 : Inv s₂ := inv_seqExec mid s₁ hi1 (fun x hx => hopok x (by rw [hacq]; simp [hx]))
+  have hiL : Inv sL := by
+    show Inv (if s₁.enabled = true then s₂ else s₁)
+    split
+    · exact hi2
+    · exact hi1
+  refine ⟨hiL, ?_, fun x => mem_targets_notify sL hiL raw x, nodup_targets_notify sL raw, sorted_notify sL raw⟩
+  obtain ⟨after, ha⟩ := seqLocal_notify pan nid s₀ pre₁ mid post t raw hmid
+  refine ⟨(seqLocal pan nid (fun _ => {}) s₀ pre₁ t).all, after, ?_⟩
+  rw [concurrent_callbacks_sequential pan nid s₀ progs sch C he hfree t, hacq]
+  exact ha
+
+/-- the same for batches: the `BatchMode(true)` / `BatchMode(false)` calls a goroutine makes for a `StartBatch` /
+    `EndBatch` are exactly those of the sequential model (`Nt.startBatch` / `Nt.endBatch`: `batch_nesting`) at the
+    registry state of the bracket's position in the acquisition order -/
+theorem batch_delivers_snapshot (pan : Nat → Bool) (nid : Nat) (s₀ : NSt) (progs : Nat → List ROp)
+    (sch : List Nat) (C : Conf) (he : cexec pan nid true (cinit s₀ progs) sch = some C) (hfree : C.m.holder = none)
+    (pre post : List (Nat × ROp)) (t : Nat) (start : Bool)
+    (hacq : C.m.acq = pre ++ (t, if start then .startSnap else .endSnap) :: post) :
+    ∃ before after, (C.loc t).all = before ++
+      batchAll pan nid start (if start then (startBatch (seqExec rrun s₀ pre).2).2 else (endBatch (seqExec rrun s₀ pre).2).2)
+      ++ after := by
+  obtain ⟨after, ha⟩ := seqLocal_bracket pan nid s₀ pre post t (if start then .startSnap else .endSnap)
+  refine ⟨(seqLocal pan nid (fun _ => {}) s₀ pre t).all, after, ?_⟩
+  rw [concurrent_callbacks_sequential pan nid s₀ progs sch C he hfree t, hacq, ha]
+  cases start <;> rfl
+
+/-- **the unlocked phase touches no shared state** (model-level race freedom of delivery).  A callback step of
+    goroutine `t` (a) is enabled whatever the lock word, the registry and the other goroutines look like, (b) changes
+    nothing but `t`'s own local data, as a function of those data alone — the registry, the lock word, every goroutine's
+    bracket and every other goroutine's local data are untouched —, and therefore (c) COMMUTES with every step of every
+    other goroutine: executing the two in either order gives the same configuration (or both orders are not schedules).
+    This holds with and without the mutex (`lock` arbitrary).  A snapshot whose storage is shared with the registry
+    (regression ind4-c17-b: the backing array reused by the next `StartBatch`) is a system in which (b) fails. -/
+theorem delivery_touches_no_shared_state (pan : Nat → Bool) (nid : Nat) (lock : Bool) (C : Conf) (t : Nat)
+    (e : Event) (rest : List Event) (hp : (C.loc t).pending = e :: rest) :
+    cstep pan nid lock C t =
+      some { C with loc := upd C.loc t { (C.loc t) with pending := rest, made := (C.loc t).made ++ [e] } } ∧
+    (∀ C', cstep pan nid lock C t = some C' → C'.m = C.m ∧ ∀ u, u ≠ t → C'.loc u = C.loc u) ∧
+    (∀ u, u ≠ t → (cstep pan nid lock C t).bind (fun C1 => cstep pan nid lock C1 u) =
+                   (cstep pan nid lock C u).bind (fun C1 => cstep pan nid lock C1 t)) := by
+  have h1 := callback_step_local pan nid lock C t e rest hp
+  refine ⟨h1, ?_, ?_⟩
+  · intro C' hC
+    rw [h1] at hC; simp only [Option.some.injEq] at hC; subst hC
+    exact ⟨rfl, fun u hu => upd_other _ _ _ _ hu⟩
+  · intro u hu
+    exact callback_commutes pan nid lock C t u (fun e => hu e.symm) (by rw [hp]; simp)
+
+/-- **without the mutex the registry is not linearizable** (`lock := false`: acquire never blocks).  The schedule
+    `raceSchedule` is a schedule of the unlocked machine — and not of the locked one —; it ends with both calls finished
+    and t5 registered for "b" but not for "a", which neither order of the two calls can produce (`Register` first: no
+    registration at all; `Unregister` first: both names). -/
+theorem unlocked_not_linearizable :
+    (cexec nobody 0 false (cinit {} raceProgs) raceSchedule).map (fun C => (raceObs C.m.shared, C.m.holder.isSome)) =
+      some ((none, some 1, true), false) ∧
+    cexec nobody 0 true (cinit {} raceProgs) raceSchedule = none ∧
+    raceObs (seqExec rrun {} [(0, .register 5 1 [[97], [98]]), (1, .unregister 5)]).2 = (none, none, false) ∧
+    raceObs (seqExec rrun {} [(1, .unregister 5), (0, .register 5 1 [[97], [98]])]).2 = (some 1, some 1, true) := by
+  decide
+
+end concurrent
 
 end C17
